@@ -505,6 +505,7 @@ func addLocalIdentifierDefs(t *rapid.T, c *core.Ctx, f *model.File) {
 func TestC01(t *testing.T) {
 	c := core.New(t, "C01")
 	defer c.Finish()
+	defer gen.CleanupCLI()
 	c.Rule("schemas from the full-mix grammar (all node kinds, constraints, nullable, defaults, formats, enums, refs, allOf/anyOf, hostile descriptions, definitions named like the identifiers the emitted methods declare) x random option sets, plus two families run through the real CLI under a time limit: 'mixed' (allOf/anyOf branches of every kind - null, primitives, enums, arrays, references to any definition - and composites as array items and definitions) and 'cycles' (rings of 1-4 definitions linked through optional/required properties, array items, map values, nullable/two-reference anyOf, single-branch allOf); each accepted case: the run terminates, no gofmt warning, go/parser, gofmt fixpoint, go/types against declared imports; non-trivial = accepted case whose output has >=1 method or >=2 distinct feature kinds; distinct by sha256(files,args)")
 	c.Assume("Go toolchain go/parser, go/format, go/types and gc export data as reference for 'valid Go that compiles'", "extension objects are consistent (type/imports) — inconsistent ones are user error")
 	eval := func(r *core.Replay) (bool, string, error) {
